@@ -90,6 +90,9 @@ func (t Tuple) M__getitem__(key Object) (Object, error) {
 			return nil, err
 		}
 		if step == 1 {
+			if stop < start {
+				stop = start
+			}
 			// Return a subslice since tuples are immutable
 			return t[start:stop], nil
 		}
